@@ -158,6 +158,8 @@ def run(chk) -> None:
             def live_map(x: ast.AST) -> bool:
                 while isinstance(x, ast.Call) and isinstance(x.func, ast.Attribute) and x.func.attr in ("items", "keys", "values", "copy") and not x.args:
                     x = x.func.value
+                if isinstance(x, ast.Name):        # the live map itself held in a local (`step_collected = state.workers[…].collected_events`)
+                    x = expand(x, refreshed[0], depth=3, provenance=True)
                 return isinstance(x, ast.Attribute) and x.attr == "collected_events" and _live(x.value)
             for n_ in ast.walk(e_):
                 if isinstance(n_, ast.comprehension) and live_map(n_.iter):
@@ -232,6 +234,8 @@ def run(chk) -> None:
 
 
 TWINS = [
+    Twin("benign: live buffer map held in a local, snapshot filled by a loop over it", CL_REL, "                updated_state = replace(\n                    this_execution.shared_state,\n                    collected_events={\n                        x: list(y)\n                        for x, y in state.workers[\n                            tick.step_name\n                        ].collected_events.items()\n                    },\n                )\n",
+         "                _live_map = state.workers[tick.step_name].collected_events\n                _fresh2: dict = {}\n                for _bid, _evs in _live_map.items():\n                    _fresh2[_bid] = list(_evs)\n                updated_state = replace(\n                    this_execution.shared_state,\n                    collected_events=_fresh2,\n                )\n", None),
     Twin("re-run snapshot holds only the stale buffer", CL_REL, "                    collected_events={\n                        x: list(y)\n                        for x, y in state.workers[\n                            tick.step_name\n                        ].collected_events.items()\n                    },\n",
          "                    collected_events={result.event_id: list(collected_events)},\n", "C09.R3"),
     Twin("benign: re-run snapshot filled by a loop over the live map", CL_REL, "                updated_state = replace(\n                    this_execution.shared_state,\n                    collected_events={\n                        x: list(y)\n                        for x, y in state.workers[\n                            tick.step_name\n                        ].collected_events.items()\n                    },\n                )\n",
